@@ -715,6 +715,8 @@ def select__subsequence(self: XPathFunction, context: ta.ContextType = None) \
         context = self.context
 
     starting_loc = self.get_argument(context, 1, required=True, cls=NumericProxy)
+    if isinstance(starting_loc, (int, Decimal)):
+        starting_loc = get_double(starting_loc)  # the parameter is an xs:double: promoted, then rounded
     if not math.isnan(starting_loc) and not math.isinf(starting_loc):
         starting_loc = float(round_number(starting_loc))
 
@@ -724,6 +726,8 @@ def select__subsequence(self: XPathFunction, context: ta.ContextType = None) \
                 yield result
     else:
         length = self.get_argument(context, 2, required=True, cls=NumericProxy)
+        if isinstance(length, (int, Decimal)):
+            length = get_double(length)
         if not math.isnan(length) and not math.isinf(length):
             length = float(round_number(length))
 
